@@ -490,6 +490,22 @@ func checkCacheLoad(c *core.Ctx) {
 					case *ssa.Call:
 						if f := x.Common().StaticCallee(); f != nil && f.Name() == "Equal" && f.Pkg != nil && f.Pkg.Pkg.Path() == "bytes" {
 							magicOK = true
+						} else if f != nil && f.Blocks != nil && f.Pkg == deser.Pkg {
+							// a predicate of the package that makes the comparison (one level)
+							for _, pb := range f.Blocks {
+								for _, pin := range pb.Instrs {
+									switch y := pin.(type) {
+									case *ssa.Call:
+										if g := y.Common().StaticCallee(); g != nil && g.Name() == "Equal" && g.Pkg != nil && g.Pkg.Pkg.Path() == "bytes" {
+											magicOK = true
+										}
+									case *ssa.BinOp:
+										if (y.Op == token.NEQ || y.Op == token.EQL) && isString(y.X.Type()) {
+											versionOK = true
+										}
+									}
+								}
+							}
 						}
 					case *ssa.BinOp:
 						if (x.Op == token.NEQ || x.Op == token.EQL) && isString(x.X.Type()) {
@@ -599,7 +615,33 @@ func layoutTokens(c *core.Ctx, p *packages.Package, body *ast.BlockStmt, writer 
 	}
 	var walk func(list []ast.Stmt)
 	walk = func(list []ast.Stmt) {
-		for _, s := range list {
+		for si, s := range list {
+			// `if <a byte just read> != 1 { return }` in front of the rest: the rest is the optional part
+			if is, ok := s.(*ast.IfStmt); ok && is.Else == nil && len(is.Body.List) == 1 && si+1 < len(list) {
+				if rs, isRet := is.Body.List[0].(*ast.ReturnStmt); isRet && len(rs.Results) == 0 {
+					mentionsByte := false
+					scan := func(n ast.Node) {
+						ast.Inspect(n, func(y ast.Node) bool {
+							if ix, ok := y.(*ast.IndexExpr); ok {
+								if _, isK := core.ConstVal(info, ix.Index); isK {
+									mentionsByte = true
+								}
+							}
+							return true
+						})
+					}
+					scan(is.Cond)
+					if is.Init != nil {
+						scan(is.Init)
+					}
+					if mentionsByte {
+						out = append(out, "opt{")
+						walk(list[si+1:])
+						out = append(out, "}")
+						return
+					}
+				}
+			}
 			switch x := s.(type) {
 			case *ast.ForStmt:
 				out = append(out, "loop{")
